@@ -191,7 +191,8 @@ def parseThreads (s : String) : Option (List Spec.V2Thread) :=
   if s = "-" then some [] else
   (s.splitOn ",").mapM fun t =>
     match t.splitOn ":" with
-    | [a, b, c] => do pure ⟨(← a.toNat?), (← b.toNat?), (← ofHex c)⟩
+    | [a, b, c] => do pure ⟨(← a.toNat?), (← b.toNat?), (← ofHex c), []⟩
+    | [a, b, c, j] => do pure ⟨(← a.toNat?), (← b.toNat?), (← ofHex c), (← ofHex j)⟩
     | _ => none
 
 def splitRecs (b : Bytes) : Nat → List Bytes
